@@ -51,18 +51,20 @@ Definition global_class : list (string * list (string * string) * gstatus) := [
      [("cmd/decipher:main", "assign")], GProcessSetup)
 ]%string.
 
-(* callees outside the module that only read the operands they are given (receiver and arguments):
-   comparison, search, formatting, hashing INPUT, encoding, the data argument of a Write (io.Writer:
-   "Write must not modify the slice data, even temporarily") *)
-Definition read_only_callees : list string := [
-  "bytes.Equal"; "bytes.HasPrefix"; "bytes.Index";
-  "strings.Join";
-  "errors.Is"; "fmt.Errorf"; "log.Printf";
-  "encoding/asn1.ObjectIdentifier.Equal"; "encoding/asn1.ObjectIdentifier.String";
-  "math/big.Int.Cmp";
-  "time.Time.Unix";
-  "encoding/binary.bigEndian.Uint64";
-  "io.Writer.Write"; "bufio.Writer.Write"
+(* hand-overs to callees outside the module that only READ the operand in question - "arg:": the
+   reference is an argument (comparison, search, formatting, wrapping of an error value, the data
+   argument of a Write - io.Writer: "Write must not modify the slice data, even temporarily");
+   "method:": the method is called ON the value (a comparison or a rendering of it).  A Write ON a
+   package-level hash or buffer would be "method:io.Writer.Write" and is not listed. *)
+Definition read_only_kinds : list string := [
+  "arg:bytes.Equal"; "arg:bytes.HasPrefix"; "arg:bytes.Index";
+  "arg:strings.Join";
+  "arg:errors.Is"; "arg:fmt.Errorf"; "arg:log.Printf";
+  "arg:encoding/asn1.ObjectIdentifier.Equal"; "method:encoding/asn1.ObjectIdentifier.String";
+  "method:math/big.Int.Cmp";
+  "method:time.Time.Unix";
+  "arg:encoding/binary.bigEndian.Uint64";
+  "arg:io.Writer.Write"; "arg:bufio.Writer.Write"
 ]%string.
 
 Definition has_prefix (p s : string) : bool := String.prefix p s.
@@ -70,17 +72,8 @@ Definition has_suffix (p s : string) : bool :=
   String.eqb (String.substring (String.length s - String.length p) (String.length p) s) p
   && Nat.leb (String.length p) (String.length s).
 
-(* "arg:bytes.Equal" / "method:math/big.Int.Cmp" -> the callee *)
-Definition callee_of (kind : string) : option string :=
-  if has_prefix "arg:"%string kind then Some (String.substring 4 (String.length kind - 4) kind)
-  else if has_prefix "method:"%string kind then Some (String.substring 7 (String.length kind - 7) kind)
-  else None.
-
 Definition site_reads_only (s : string * string) : bool :=
-  match callee_of (snd s) with
-  | Some c => existsb (String.eqb c) read_only_callees
-  | None => false
-  end.
+  existsb (String.eqb (snd s)) read_only_kinds.
 
 (* a site in a package's init function: runs once, before main *)
 Definition site_in_init (s : string * string) : bool := has_suffix ":init"%string (fst s).
